@@ -186,7 +186,16 @@ func ioHeadersRoundTrip(m map[string]interface{}, writerSimple bool, readerOpts 
 	return
 }
 
-var jsonCodec = jsonrpc.NewClientCodec(nil).(*jsonrpc.ClientCodec).Codec
+// The oracle for JSON-RPC values is the STANDARD LIBRARY's encoding/json, not the JSON implementation the
+// codec under test is configured with: a codec configuration that loses information (digits of a float,
+// say) must not be mirrored by the oracle.
+type stdJSON struct{}
+
+func (stdJSON) Marshal(v interface{}) ([]byte, error)      { return json.Marshal(v) }
+func (stdJSON) Unmarshal(d []byte, v interface{}) error { return json.Unmarshal(d, v) }
+
+var jsonCodec stdJSON
+var _ = jsonrpc.NewClientCodec
 
 // jsonRoundTrip: Marshal, Unmarshal into interface{}, Marshal again, Unmarshal into t (what both JSON-RPC codecs do).
 func jsonRoundTrip(v interface{}, t reflect.Type) (out interface{}, err string) {
